@@ -179,16 +179,16 @@ Lemma wrap_named_none e bs b pv0 : branch_kind e b = None -> wrap_union ro_named
 Proof. intros H. unfold wrap_union, ro_named. cbn [ret_named_override ret_named ret_rec_override ret_rec andb]. rewrite H. reflexivity. Qed.
 
 Theorem closure : forall n o e s a pv,
-  typedn n e s a -> closb n o e s a = true -> py_of ro_named e s a = Some pv -> evw o e s pv a.
+  typedn n e s a -> closb n o e s a = true -> floats_stable a = true -> py_of ro_named e s a = Some pv -> evw o e s pv a.
 Proof.
-  induction n as [|n IH]; intros o e s a pv Ht Hc Hp; [destruct Ht|].
+  induction n as [|n IH]; intros o e s a pv Ht Hc Hfs Hp; [destruct Ht|].
   destruct s.
   15:{ apply typedn_ref in Ht. destruct Ht as (s' & Hl & Ht).
        assert (Hc' : closb n o e s' a = true) by (destruct a; cbn [closb] in Hc; rewrite Hl in Hc; exact Hc).
-       destruct (IH o e s' a pv Ht Hc' (py_of_ref _ _ _ _ _ _ Hl Hp)) as [f0 Hf0].
+       destruct (IH o e s' a pv Ht Hc' Hfs (py_of_ref _ _ _ _ _ _ Hl Hp)) as [f0 Hf0].
        exists (S f0). intros [|f] Hf; [lia|]. cbn [elab]. rewrite Hl. apply Hf0. lia. }
   15:{ apply typedn_annot in Ht. assert (Hc' : closb n o e s a = true) by (destruct a; exact Hc).
-       rewrite py_of_annot in Hp. destruct (IH o e s a pv Ht Hc' Hp) as [f0 Hf0].
+       rewrite py_of_annot in Hp. destruct (IH o e s a pv Ht Hc' Hfs Hp) as [f0 Hf0].
        exists (S f0). intros [|f] Hf; [lia|]. cbn [elab]. apply Hf0. lia. }
   all: destruct a; cbn [typedn] in Ht; try contradiction; cbn [py_of resolve strip] in Hp.
   - injection Hp as <-. apply evw_leaf. reflexivity.
@@ -197,8 +197,8 @@ Proof.
     assert (E : (INT_MIN <=? z) && (z <=? INT_MAX) = true) by (unfold in_int32, INT_MIN, INT_MAX in *; lia). rewrite E. reflexivity.
   - injection Hp as <-. apply evw_leaf. intros f. cbn [elab].
     assert (E : (LONG_MIN <=? z) && (z <=? LONG_MAX) = true) by (unfold in_int64, LONG_MIN, LONG_MAX in *; lia). rewrite E. reflexivity.
-  - injection Hp as <-. cbn [closb] in Hc. destruct (d2s (s2d bits)) as [y| |] eqn:Ed; try discriminate.
-    apply Z.eqb_eq in Hc. subst y. apply evw_leaf. intros f. cbn [elab to_double wbind]. rewrite Ed. reflexivity.
+  - injection Hp as <-. cbn [floats_stable] in Hfs. destruct (d2s (s2d bits)) as [y| |] eqn:Ed; try discriminate.
+    apply Z.eqb_eq in Hfs. subst y. apply evw_leaf. intros f. cbn [elab to_double wbind]. rewrite Ed. reflexivity.
   - injection Hp as <-. apply evw_leaf. reflexivity.
   - injection Hp as <-. apply evw_leaf. reflexivity.
   - injection Hp as <-. apply evw_leaf. reflexivity.
@@ -210,27 +210,29 @@ Proof.
     destruct Ht as [_ Hl]. cbn [closb] in Hc. apply forallb_Forall in Hc.
     match type of Hp with option_map _ ?g = _ => destruct g as [outs|] eqn:Eg; [|discriminate] end.
     cbn [option_map] in Hp. injection Hp as <-. apply py_items_inv in Eg.
-    assert (Hall : Forall (fun a0 => typedn n e s a0 /\ closb n o e s a0 = true) l).
-    { rewrite Forall_forall in *. intros a0 Ha. split; [apply Hl|apply Hc]; exact Ha. }
+    cbn [floats_stable] in Hfs. apply forallb_Forall in Hfs.
+    assert (Hall : Forall (fun a0 => typedn n e s a0 /\ closb n o e s a0 = true /\ floats_stable a0 = true) l).
+    { rewrite Forall_forall in *. intros a0 Ha. split; [apply Hl|split; [apply Hc|apply Hfs]]; exact Ha. }
     pose proof (Forall2_flip_and _ _ _ _ Eg Hall) as H2.
     destruct (elab_items_to o e s outs l) as [f0 Hf0].
-    { eapply Forall2_impl2; [|exact H2]. intros out a0 [Hpy [Ht0 Hc0]]. eapply IH; eassumption. }
+    { eapply Forall2_impl2; [|exact H2]. intros out a0 [Hpy (Ht0 & Hc0 & Hs0)]. eapply IH; eassumption. }
     exists (S f0). intros [|f] Hf; [lia|]. cbn [elab]. rewrite (Hf0 f ltac:(lia)). reflexivity.
   - (* map *)
     destruct Ht as [_ Hl]. cbn [closb] in Hc. apply andb_prop in Hc. destruct Hc as [Hnd Hc]. apply forallb_Forall in Hc.
     match type of Hp with option_map _ ?g = _ => destruct g as [res|] eqn:Eg; [|discriminate] end.
     cbn [option_map] in Hp. injection Hp as <-.
     destruct (py_map_inv ro_named e s l (nodup_str_NoDup _ Hnd) [] res (fun _ _ => eq_refl) Eg) as (outs & -> & Ho).
-    assert (Hall : Forall (fun kx : bytes * aval => typedn n e s (snd kx) /\ closb n o e s (snd kx) = true) l).
-    { rewrite Forall_forall in *. intros kx Hk. split; [apply (Hl kx Hk)|apply Hc; exact Hk]. }
+    cbn [floats_stable] in Hfs. apply forallb_Forall in Hfs.
+    assert (Hall : Forall (fun kx : bytes * aval => typedn n e s (snd kx) /\ closb n o e s (snd kx) = true /\ floats_stable (snd kx) = true) l).
+    { rewrite Forall_forall in *. intros kx Hk. split; [apply (Hl kx Hk)|split; [apply Hc; exact Hk|apply Hfs; exact Hk]]. }
     pose proof (Forall2_and_r _ _ _ _ Ho Hall) as H2.
     destruct (elab_map_to o e s outs l) as [f0 Hf0].
-    { eapply Forall2_impl2; [|exact H2]. intros q kx [[Hk Hpy] [Ht0 Hc0]]. split; [exact Hk|]. eapply IH; eassumption. }
+    { eapply Forall2_impl2; [|exact H2]. intros q kx [[Hk Hpy] (Ht0 & Hc0 & Hs0)]. split; [exact Hk|]. eapply IH; eassumption. }
     exists (S f0). intros [|f] Hf; [lia|]. cbn [elab app]. rewrite (Hf0 f ltac:(lia)). reflexivity.
   - (* union *)
     destruct Ht as (_ & s0 & Hn & Ht). cbn [closb] in Hc. rewrite Hn in Hc, Hp. apply andb_prop in Hc. destruct Hc as [Hcb Hc].
     destruct (py_of ro_named e s0 a) as [pv0|] eqn:Ep0; [|discriminate]. injection Hp as <-.
-    destruct (IH o e s0 a pv0 Ht Hcb Ep0) as [fb Hfb]. pose proof (nthZ_range _ _ _ Hn) as Hi.
+    cbn [floats_stable] in Hfs. destruct (IH o e s0 a pv0 Ht Hcb Hfs Ep0) as [fb Hfb]. pose proof (nthZ_range _ _ _ Hn) as Hi.
     destruct (branch_kind e s0) as [[nm r]|] eqn:Ek.
     + apply andb_prop in Hc. destruct Hc as [Hc Hfn]. apply andb_prop in Hc. destruct Hc as [Hnb Hdt].
       unfold named_b in Hnb. rewrite Ek in Hnb. apply beqb_eq in Hnb. subst nm.
@@ -257,8 +259,9 @@ Proof.
     pose proof (record_dict_get (fun out fa => py_of ro_named e (ftype (fst fa)) (snd fa) = Some out) fs l outs [] HND Ho Hlen (fun _ _ => eq_refl)) as Hg.
     cbn [app fst snd] in Hg.
     destruct (elab_fields_to o e outs fs l) as [f0 Hf0].
-    { eapply Forall2_impl2; [|exact (Forall2_conj _ _ _ _ Hg (Forall2_conj _ _ _ _ Ht Hc))].
-      intros fd a0 [(out & Hd & Hpy) [Ht0 Hc0]]. exists out. split; [exact Hd|]. split; [|eapply IH; eassumption].
+    cbn [floats_stable] in Hfs. apply forallb_Forall in Hfs.
+    { eapply Forall2_impl2; [|exact (Forall2_and_r _ _ _ _ (Forall2_conj _ _ _ _ Hg (Forall2_conj _ _ _ _ Ht Hc)) Hfs)].
+      intros fd a0 [[(out & Hd & Hpy) [Ht0 Hc0]] Hs0]. exists out. split; [exact Hd|]. split; [|eapply IH; eassumption].
       unfold fconv. destruct (ftype fd) eqn:Et; try reflexivity.
       - destruct (py_float_shape ro_named e SFloat a0 out I Hpy) as [b ->]; reflexivity.
       - destruct (py_float_shape ro_named e SDouble a0 out I Hpy) as [b ->]; reflexivity. }
@@ -268,10 +271,10 @@ Qed.
 
 (* at byte level *)
 Corollary closure_bytes n o e s a pv :
-  typedn n e s a -> closb n o e s a = true -> py_of ro_named e s a = Some pv ->
+  typedn n e s a -> closb n o e s a = true -> floats_stable a = true -> py_of ro_named e s a = Some pv ->
   exists f0, forall f, (f0 <= f)%nat -> write f o e s pv = WOk (wire a).
 Proof.
-  intros Ht Hc Hp. destruct (closure n o e s a pv Ht Hc Hp) as [f0 H0]. exists f0. intros f Hf. unfold write. rewrite (H0 f Hf). reflexivity.
+  intros Ht Hc Hfs Hp. destruct (closure n o e s a pv Ht Hc Hfs Hp) as [f0 H0]. exists f0. intros f Hf. unfold write. rewrite (H0 f Hf). reflexivity.
 Qed.
 
 (* the side condition is monotone in nothing but is decided by computation; a failing instance (outside the statement) *)
